@@ -254,3 +254,15 @@ M("c20-not-idempotent", "C20", CPF, '    if "QED" in new_theory:\n        new_th
 M("c20-projectile-echo", "C20", "runner.py", '        self._output["projectilePID"] = coupling_constants.obs_config["projectilePID"]', '        self._output["projectilePID"] = abs(coupling_constants.obs_config["projectilePID"])', expect="projectilePID")
 B("c20-deepcopy-then-mutate", "C20", CPF, "    new_theory = theory.copy()", "    import copy as _copy\n\n    new_theory = _copy.deepcopy(theory)")
 B("c20-rename-newobs", "C20", CPF, "    new_obs = observables.copy()\n    update_fns(new_theory)\n    update_scale_variations(new_theory)\n    update_target(new_obs)", "    upgraded = dict(observables)\n    update_fns(new_theory)\n    update_scale_variations(new_theory)\n    update_target(upgraded)\n    new_obs = upgraded")
+
+# ----------------------------------------------------------------------------- C14
+M("c14-key-no-tmc-flag", "C14", "sf.py", "            key.append(use_tmc_if_available)\n", "", expect="C14.history")
+M("c14-key-x-only", "C14", "sf.py", "            key = list(kinematics.values())\n", "            key = [kinematics[\"x\"]]\n", expect="C14.history")
+B("c14-no-drop-cache", "C14", "runner.py", "                    if Q2 is not None and Q2 != elem.Q2:\n                        self.drop_cache()\n", "")
+M("c14-no-deepcopy-esf", "C14", "esf/esf.py", "        return copy.deepcopy(self.res)", "        return self.res", expect="C14.history")
+M("c14-append-sorted", "C14", "runner.py", "                    results[idx] = elem.get_result()", "                    results[results.index(None)] = elem.get_result()", expect="C14.history")
+M("c14-sv-cache-label-only", "C14", "esf/scale_variations.py", "                if (l, nf) in self.operators:\n                    logger.debug(\"using cached %s\", l)\n                    continue", "                if any(k[0] == l for k in self.operators):\n                    logger.debug(\"using cached %s\", l)\n                    continue", expect=None)
+M("c14-module-accumulator", "C14", "esf/esf.py", "        self._computed = True\n", "        self._computed = True\n        _SEEN.append(self.x)\n        for o in self.res.orders:\n            self.res.orders[o][0] = self.res.orders[o][0] * len(_SEEN)\n", expect="C14.history",
+  more=[("esf/esf.py", "logger = logging.getLogger(__name__)\n", "logger = logging.getLogger(__name__)\n_SEEN = []\n")])
+M("c01-res-shared-zeros", "C01", "esf/esf.py", "        for o in full_orders:\n            self.res.orders[o] = [self.zeros, self.zeros]", "        z = self.zeros\n        for o in full_orders:\n            self.res.orders[o] = [z, z]", expect=None)
+B("c14-key-tuple-direct", "C14", "sf.py", "            key = list(kinematics.values())\n            use_tmc_if_available = not use_raw and self.runner.configs.TMC != 0\n            key.append(use_tmc_if_available)\n            key = tuple(key)", "            use_tmc_if_available = not use_raw and self.runner.configs.TMC != 0\n            key = (*kinematics.values(), use_tmc_if_available)")
